@@ -790,9 +790,9 @@ static int cmd_worker(int argc, char** argv) {
     setup_fds(outdir + "/" + prop + "-w" + std::to_string(start) + "-" + std::to_string((long)::getpid()) + ".stderr");
     auto need = sc->pool_need();
     g_isolate = need.first + need.second > 0;
-    auto t0 = std::chrono::steady_clock::now();
     if (g_isolate)
         prefill_pool(need.first, need.second);
+    auto t0 = std::chrono::steady_clock::now(); // the budget counts simulation time, not the construction of the instance pool
     report(fmt("HELLO prop=%s seed=%llu start=%llu stride=%llu isolate=%d", prop.c_str(), (unsigned long long)seed,
                (unsigned long long)start, (unsigned long long)stride, g_isolate ? 1 : 0));
     u64 runs = 0;
